@@ -79,6 +79,11 @@ func (b *baseCockpit) remove(t *task.Task) {
 		}
 	}
 
+	if b.spinner == nil {
+		// no task has started its output yet (this one was skipped or failed before its first command)
+		return
+	}
+
 	var mark = aurora.Green("✔")
 	if t.Errored {
 		mark = aurora.Red("✗")
